@@ -13,6 +13,7 @@ use_repo()
 import flowdyn.field as ffield  # noqa: E402
 import flowdyn.integration as tnum  # noqa: E402
 import flowdyn.mesh as fmesh  # noqa: E402
+import flowdyn.mesh2d as fmesh2d  # noqa: E402
 import flowdyn.modeldisc as fdisc  # noqa: E402
 import flowdyn.modelphy.burgers as mburgers  # noqa: E402
 import flowdyn.modelphy.convection as mconv  # noqa: E402
@@ -225,6 +226,8 @@ class World:
         if ms["kind"] == "refined":
             return fmesh.refinedmesh(ncell=ms["ncell"], length=unhex(ms["length"]),
                                      ratio=unhex(ms["ratio"]))
+        if ms["kind"] == "uni2d":
+            return fmesh2d.unimesh(ms["nx"], ms["ny"])
         raise HarnessError("mesh kind " + ms["kind"])
 
     def _model(self):
@@ -238,6 +241,8 @@ class World:
             return meuler.model()
         if k == "shallowwater":
             return mshw.shallowwater1d()
+        if k == "euler2d":
+            return meuler.euler2d()
         raise HarnessError("model kind " + k)
 
     def _num(self):
@@ -257,12 +262,20 @@ class World:
         model = self._model()
         if self.mode == "stub":
             inner = SimDisc(model, self.mesh, self.spec["stub"])
+        elif self.spec["model"]["kind"] == "euler2d":
+            n = self.spec.get("num", "extrapol2d1")
+            num = xnum.extrapol2d1() if n == "extrapol2d1" else xnum.extrapol2dk(1. / 3.)
+            bcper = {"type": "per"}
+            inner = fdisc.fvm2d(model, self.mesh, num=num, numflux=self.spec["model"].get("flux"),
+                                bclist={tag: bcper for tag in self.mesh.list_of_bctags()})
         else:
             inner = fdisc.fvm1d(model, self.mesh, self._num(),
                                 numflux=self.spec["model"].get("flux"))
         return DiscProxy(inner, rec, self.ticks)
 
     def make_field(self, fs, disc):
+        if self.spec["model"]["kind"] == "euler2d":
+            return self._make_field2d(fs, disc)
         x = self.mesh.centers()
         L = self.mesh.length
         base, amp, k = unhex(fs["base"]), unhex(fs["amp"]), fs["k"]
@@ -293,6 +306,23 @@ class World:
                             t=unhex(fs.get("t0", "0x0p+0")), it=fs.get("it", -1))
 
 
+def _make_field2d(self, fs, disc):
+    from flowdyn._data import datavector
+    xc, yc = self.mesh.centers()
+    base, amp, k = unhex(fs["base"]), unhex(fs["amp"]), fs["k"]
+    u0 = unhex(fs.get("u0", "0x0p+0"))
+    s = np.sin(2 * k * np.pi * xc) * np.cos(2 * np.pi * yc)
+    rho = base + amp * s
+    uv = datavector(0. * xc + u0, 0. * xc + 0.2)
+    p = base + 0.5 * amp * s
+    data = disc.model.prim2cons([rho, uv, p])
+    return ffield.fdata(disc.model, self.mesh, [np.array(d, dtype=float) for d in data],
+                        t=unhex(fs.get("t0", "0x0p+0")), it=fs.get("it", -1))
+
+
+World._make_field2d = _make_field2d
+
+
 def mon_dict(spec):
     """Build a caller-style monitors dictionary from its JSON spec."""
     d = {}
@@ -314,4 +344,5 @@ MON_DATA = {
     "burgers": [],
     "euler": ["density", "pressure", "mach", "velocity", "massflow"],
     "shallowwater": ["height", "velocity", "massflow"],
+    "euler2d": ["density", "pressure", "mach", "velocity_x", "velocity_y"],
 }
